@@ -1390,6 +1390,30 @@ def check_C15(run):
         if len(keys_seen) != 4 or len(set(keys_seen)) != 4 or r['rc'] != 0 or any(len(k_) > 32 or not k_ or any(c_ not in '0123456789abcdef' for c_ in k_) for k_ in keys_seen):
             run.violation(dict(kind='oracle-failed-on-implementation', oracle='every doer launch gets a newly generated key (two runs with both doers remote: four launches, four distinct keys of at most 32 hex digits)',
                                layer='L4', launches=len(keys_seen), distinct_keys=len(set(keys_seen)), same_key_twice=len(set(keys_seen)) < len(keys_seen), rc=r['rc'], stderr=r['err'][-500:]))
+        # ---- the key as an *input*: the OS randomness the boss draws its key from is forced (LD_PRELOAD shim) to chosen values - leading zero
+        # nibbles and bytes, all zero, all ones - and a same-version remote doer must be given exactly that value and the sync must work
+        so = l4.build_force_key_shim(sb.dir)
+        run.count('forced-key:' + ('shim-built' if so else 'skipped:no-c-compiler'))
+        if so:
+            sb.place_remote('same')
+            forced_keys = ['00000000000000000000000000000001', '0f' + 'ab' * 15, '000000' + 'cd' * 13, '10' + '00' * 15, 'ff' * 16, '00' * 16, '0' + 'e' * 31, '%032x' % rng.getrandbits(128), '%032x' % rng.getrandbits(100)]
+            for fk in forced_keys if thorough else forced_keys[:7]:
+                shutil.rmtree(sb.dir + '/dst', ignore_errors=True)
+                klog3 = os.path.join(sb.dir, 'keys3.log')
+                if os.path.exists(klog3): os.remove(klog3)
+                r = l4.run_cli([sb.dir + '/src/', 'localhost:' + sb.dir + '/dst/', '--deploy', 'error'], env=sb.env({'FAKE_KEY_LOG': klog3, 'LD_PRELOAD': so, 'FORCE_KEY_HEX': fk}), timeout=60)
+                got_keys = [l.strip() for l in open(klog3)] if os.path.exists(klog3) else []
+                synced = os.path.exists(sb.dir + '/dst/sub/g')
+                run.case(('forced-key', fk), True, sample=dict(layer='L4', forced_key=fk, written=got_keys[:2], rc=r['rc']) if fk.startswith('0000') else None)
+                run.count(f'forced-key:rc={r["rc"]}'); run.cov['traces_validated_against_impl'] += 1
+                took = bool(got_keys) and all(c_ in '0123456789abcdefABCDEF' for c_ in got_keys[0]) and got_keys[0] != '' and int(got_keys[0], 16) == int(fk, 16)
+                if got_keys and not took and len(set(got_keys)) == 1 and r['rc'] == 0:
+                    run.count('forced-key:shim-not-effective'); break       # this build draws its randomness some other way: nothing learnt
+                if r['rc'] != 0 or not synced or not took:
+                    run.violation(dict(kind='oracle-failed-on-implementation', oracle='whatever the value of the generated key (leading zero digits and bytes included), the doer is given exactly that value and the link works', layer='L4',
+                                       forced_key=fk, written_to_doer=got_keys[:2], rc=r['rc'], synced=synced, stderr=r['err'][-500:],
+                                       how='LD_PRELOAD shim answers the 16-byte getrandom request with the forced bytes; fake ssh logs the first line written to the doer'))
+                    break
         # ---- ... also the relaunch after a deployment that was decided late: the first doer has its key when an ssh line containing
         # 'No such file or directory' arrives; the boss deploys and launches again: that launch must get a key of its own
         sb.place_remote('same')
@@ -3001,6 +3025,10 @@ def check_C19(run):
     for i in range(1500 if not thorough else 8000):
         kind = rng.choice(['elf', 'pe'])
         img = G.make_elf(rng) if kind == 'elf' else G.make_pe(rng)
+        # plausible non-standard inputs, judged like valid ones (if the add succeeds the payload must read back and the sections survive):
+        # bytes after the end of the image (padding, an appended signature / overlay)
+        if rng.random() < 0.12:
+            img = img + bytes(rng.getrandbits(8) if rng.random() < 0.5 else 0 for _ in range(rng.choice([1, 2, 8, 16, 64, 512])))
         corrupted = rng.random() < 0.45
         if corrupted:
             img = G.corrupt_bounded(rng, img) if kind == 'pe' else G.corrupt(rng, img)
